@@ -1,6 +1,8 @@
 package meshops
 
 import (
+	"fmt"
+
 	"github.com/EliCDavis/polyform/modeling"
 )
 
@@ -42,8 +44,15 @@ func SplitOnUniqueMaterials(m modeling.Mesh) []modeling.Mesh {
 	orinalIndices := m.Indices()
 	for triStart := 0; triStart < orinalIndices.Len(); triStart += 3 {
 		if originalMaterials[curMatIndex].PrimitiveCount+trisFromOtherMats <= triStart/3 {
-			trisFromOtherMats += originalMaterials[curMatIndex].PrimitiveCount
-			curMatIndex++
+			// advance to the range this triangle belongs to, stepping over
+			// ranges without primitives
+			for originalMaterials[curMatIndex].PrimitiveCount+trisFromOtherMats <= triStart/3 {
+				trisFromOtherMats += originalMaterials[curMatIndex].PrimitiveCount
+				curMatIndex++
+				if curMatIndex >= len(originalMaterials) {
+					panic(fmt.Errorf("material ranges cover %d primitives, mesh has %d", trisFromOtherMats, orinalIndices.Len()/3))
+				}
+			}
 			if _, ok := workingMeshes[originalMaterials[curMatIndex].Material]; !ok {
 				workingMeshes[originalMaterials[curMatIndex].Material] = &workingMesh{
 					material: modeling.MeshMaterial{
